@@ -8,7 +8,7 @@ PID = "C06"
 RULE = ("nn-op catalogue (activations, softmax family, losses x reductions, linear, conv1d/2d, max/avg pool 1d/2d, unfold, fold, batch-norm "
         "modes) x {functional, Module} forms x geometry grid (N,C<=2; L<=7(9); k,s<=3; d<=2; p<=half dilated kernel; int / tuple / mixed "
         "argument forms; 'same'/'valid'; stride None) x dtype x value class (normal, position-coded for unfold, all-very-negative for "
-        "max-pool padding) + empty-output geometries that must raise; oracle = naive loop reference (harness/ref/nnref.py) under the verdict "
+        "max-pool padding, |x|<=800 for the exp-based ops), contiguous and non-contiguous operand storage, batch-norm eval forward after a train/eval/train history with momentum=None + empty-output geometries that must raise; oracle = naive loop reference (harness/ref/nnref.py) under the verdict "
         "table, stride-bounds sanitizer on every as_strided view; distinct key = (op, form, argclass, dtype, value class, verdict); "
         "non-trivial = output has >1 element or rejection side")
 ASSUMPTIONS = ["reference models written from the PyTorch documentation (cross-correlation, floor output size, -inf max-pool padding, zero avg-pool "
